@@ -46,7 +46,7 @@ pub fn call(letter: &str) -> (String, Vec<u8>) {
         "G" => ("stream stereo 16-bit bs256 Tukey(0.4)".into(), stream_for(2, 16, 256, 600, "thresh", Cfg { alpha: Some(0.4), ..d(256) }, Mode::St, 4)),
         "H" => ("stream stereo 16-bit bs256 Tukey(0.4+2^-20)".into(), stream_for(2, 16, 256, 600, "thresh", Cfg { alpha: Some(0.4 + 9.5367431640625e-7), ..d(256) }, Mode::St, 4)),
         "I" => ("stream mono 16-bit bs96 BitCount".into(), stream_for(1, 16, 96, 300, "ramp", Cfg { partitions: None, ..d(96) }, Mode::St, 5)),
-        "J" => ("stream stereo 20-bit bs32 max_parameter 0".into(), stream_for(2, 20, 32, 100, "noise_lo", Cfg { max_parameter: 0, ..d(32) }, Mode::St, 6)),
+        "J" => ("stream stereo 20-bit bs128 max_parameter 0".into(), stream_for(2, 20, 128, 400, "noise_lo", Cfg { max_parameter: 0, ..d(128) }, Mode::St, 6)),
         "K" => ("frame-level stereo 16-bit bs32".into(), stream_for(2, 16, 32, 90, "impulse", d(32), Mode::Fl, 7)),
         "L" => {
             // parse a stream and serialise the tree again, through the word sink as well
@@ -97,6 +97,14 @@ pub fn call(letter: &str) -> (String, Vec<u8>) {
             };
             ("stream write into a sink failing at operation 120".into(), b)
         }
+        pl if pl.starts_with('P') => {
+            // parameter-variation alphabet: P<variant>_<signal>: one geometry (stereo 16-bit, 256-sample blocks), one
+            // configuration field changed per variant - state derived from the configuration of an EARLIER call
+            let q: Vec<usize> = pl[1..].split('_').map(|x| x.parse().unwrap()).collect();
+            let (name, cfg) = pvariant(q[0]);
+            let fam = PFAMS[q[1]];
+            (format!("stream stereo 16-bit bs256 {fam} {name}"), stream_for(2, 16, 256, 600, fam, cfg, Mode::St, 11))
+        }
         w if w.starts_with('W') => {
             // window-cache aliasing alphabet: W<alpha index>_<block-size index>_<signal index>
             let p: Vec<usize> = w[1..].split('_').map(|x| x.parse().unwrap()).collect();
@@ -106,6 +114,34 @@ pub fn call(letter: &str) -> (String, Vec<u8>) {
              stream_for(2, 16, bs, bs * 2 + 40, fam, cfg, Mode::St, 9))
         }
         _ => ("?".into(), vec![]),
+    }
+}
+
+pub const PFAMS: [&str; 2] = ["thresh", "noise_lo"];
+pub const PVARIANTS: usize = 19;
+/// One configuration field changed against the default (block size 256).
+pub fn pvariant(k: usize) -> (String, Cfg) {
+    let d = Cfg { block_size: 256, ..Cfg::default() };
+    match k {
+        0 => ("default".into(), d),
+        1 => ("max_parameter 0".into(), Cfg { max_parameter: 0, ..d }),
+        2 => ("max_parameter 3".into(), Cfg { max_parameter: 3, ..d }),
+        3 => ("max_parameter 7".into(), Cfg { max_parameter: 7, ..d }),
+        4 => ("order selection by bit count".into(), Cfg { partitions: None, ..d }),
+        5 => ("entropy estimate with 1 partition".into(), Cfg { partitions: Some(1), ..d }),
+        6 => ("entropy estimate with 64 partitions".into(), Cfg { partitions: Some(64), ..d }),
+        7 => ("lpc_order 1".into(), Cfg { lpc_order: 1, ..d }),
+        8 => ("lpc_order 24".into(), Cfg { lpc_order: 24, ..d }),
+        9 => ("quant_precision 3".into(), Cfg { quant_precision: 3, ..d }),
+        10 => ("quant_precision 9".into(), Cfg { quant_precision: 9, ..d }),
+        11 => ("fixed max order 0".into(), Cfg { fixed_max_order: 0, ..d }),
+        12 => ("fixed max order 2".into(), Cfg { fixed_max_order: 2, ..d }),
+        13 => ("no lpc".into(), Cfg { use_lpc: false, ..d }),
+        14 => ("no fixed".into(), Cfg { use_fixed: false, ..d }),
+        15 => ("no constant".into(), Cfg { use_constant: false, ..d }),
+        16 => ("no mid-side".into(), Cfg { use_midside: false, ..d }),
+        17 => ("no left-side / right-side".into(), Cfg { use_leftside: false, use_rightside: false, ..d }),
+        _ => ("rectangular window".into(), Cfg { alpha: None, ..d }),
     }
 }
 
@@ -128,6 +164,16 @@ pub fn window_pairs(thorough: bool) -> Vec<Vec<String>> {
                 if a != b {
                     for s in 0..(if thorough { WSIZES.len() } else { 1 }) {
                         v.push(vec![format!("W{a}_{s}_{f}"), format!("W{b}_{s}_{f}")]);
+                    }
+                }
+            }
+        }
+        // every ordered pair of parameter variants (quick: first signal only)
+        if f == 0 || thorough {
+            for a in 0..PVARIANTS {
+                for b in 0..PVARIANTS {
+                    if a != b {
+                        v.push(vec![format!("P{a}_{f}"), format!("P{b}_{f}")]);
                     }
                 }
             }
